@@ -179,3 +179,21 @@ func TestT1WildLibRefeedDeliversDiscovery(t *testing.T) {
 		t.Fatalf("libs got  %v\nwant %v", libs, wantLibs)
 	}
 }
+
+// Witness 4 of coq/Properties/C01_Wild.v (c01_empty_lib_id_witness): a configured LIB whose ID is empty
+// (HasLIB() is true because the number is not 0).  Block 1 has an empty parent id: it links to the LIB id "",
+// AddLink does not recognise it when it is fed again, it is delivered as New again.
+func TestT1EmptyLibID(t *testing.T) {
+	old := bstream.GetProtocolFirstStreamableBlock
+	bstream.GetProtocolFirstStreamableBlock = 0
+	defer func() { bstream.GetProtocolFirstStreamableBlock = old }()
+
+	got, _ := t1run(t, []t1blk{{1, 6, 0, 5}, {1, 6, 0, 5}, {2, 7, 1, 5}, {1, 6, 0, 5}, {3, 8, 2, 5}},
+		WithExclusiveLIB(bstream.NewBlockRef("", 5)), WithFilters(t1all), WithKeptFinalBlocks(0),
+		EnsureAllBlocksTriggerLongestChain())
+	want := [][]string{{"new:1"}, {"new:1"}, {"new:2"}, {"new:1"}, {"new:2", "new:3"}}
+	t.Logf("events %v", got)
+	if !reflect.DeepEqual(got, want) {
+		t.Fatalf("got  %v\nwant %v", got, want)
+	}
+}
